@@ -11,6 +11,7 @@ func init() {
 		Cfgs: []cfgSpec{
 			{Name: "crash-single-client", Cfg: "clients=1,imgcap=8,cutden=24", Gating: true, Share: 3},
 			{Name: "crash-concurrent", Cfg: "clients=3,imgcap=6,cutden=48", Gating: true, Share: 2},
+			{Name: "crash-no-header-tear", Cfg: "clients=2,imgcap=8,cutden=24,nohdrtear", Gating: true, Share: 2},
 			{Name: "crash-at-boundaries", Cfg: "clients=2,imgcap=8,cutden=24,notear", Gating: true, Share: 1},
 			{Name: "concurrent-no-crash", Cfg: "clients=3", Gating: true, Share: 1},
 			{Name: "crash-dense", Cfg: "clients=2,imgcap=30,cutden=6,maxops=30", Gating: true, Share: 3, ThoroughOnly: true},
